@@ -114,7 +114,22 @@ func callRunsTheCodeFirst(c *core.Ctx) {
 				continue
 			}
 			cal := ci.Common().StaticCallee()
-			if cal == nil || cal.Signature.Recv() == nil || core.NamedOf(cal.Signature.Recv().Type()) != vmT {
+			if cal == nil {
+				continue
+			}
+			// a helper of the package that does the running or the looking up
+			// (Call split into smaller functions) stands for what it does
+			if cal.Pkg == sf.Pkg && cal.Blocks != nil && cal != sf {
+				r, g := vmCallsIn(cal, vmT, 0)
+				if r {
+					runs = append(runs, in)
+				}
+				if g {
+					gets = append(gets, in)
+				}
+				continue
+			}
+			if cal.Signature.Recv() == nil || core.NamedOf(cal.Signature.Recv().Type()) != vmT {
 				continue
 			}
 			switch {
@@ -1076,4 +1091,38 @@ func writesSharedState(p *core.Program, fn *ssa.Function, depth int, seen map[*s
 		}
 	}
 	return ""
+}
+
+// vmCallsIn: fn (or a function of its package that it calls, two levels deep)
+// calls a Run* method / the Get method of the VM.
+func vmCallsIn(fn *ssa.Function, vmT *types.Named, depth int) (runs, gets bool) {
+	if fn.Blocks == nil || depth > 2 {
+		return
+	}
+	for _, b := range fn.Blocks {
+		for _, in := range b.Instrs {
+			ci, ok := in.(ssa.CallInstruction)
+			if !ok {
+				continue
+			}
+			cal := ci.Common().StaticCallee()
+			if cal == nil {
+				continue
+			}
+			if cal.Signature.Recv() != nil && core.NamedOf(cal.Signature.Recv().Type()) == vmT {
+				if strings.HasPrefix(cal.Name(), "Run") {
+					runs = true
+				}
+				if cal.Name() == "Get" {
+					gets = true
+				}
+				continue
+			}
+			if cal.Pkg == fn.Pkg && cal != fn {
+				r, g := vmCallsIn(cal, vmT, depth+1)
+				runs, gets = runs || r, gets || g
+			}
+		}
+	}
+	return
 }
